@@ -85,6 +85,9 @@ func ijYAML(c *ijCase) string {
 		fmt.Fprintf(&b, "  params:\n    module: [a%d, b]\n", i)
 		b.WriteString(authYAML("  ", a, tag))
 		b.WriteString("  tls_config:\n    insecure_skip_verify: true\n    server_name: node.example\n")
+		if (i+len(c.Rr))%2 == 1 {
+			b.WriteString("  proxy_url: http://egress-proxy.example:3128\n") // a job that goes through a proxy of its own
+		}
 		fmt.Fprintf(&b, "  relabel_configs:\n  - source_labels: [__address__]\n    regex: (.+)\n    target_label: addr%d\n", i)
 		fmt.Fprintf(&b, "  metric_relabel_configs:\n  - source_labels: [__name__]\n    regex: go_%d.*\n    action: drop\n", i)
 		switch i % 3 {
@@ -320,6 +323,31 @@ func runInjectCase(file string, c *ijCase, n int) ijObs {
 	}
 	if !sameRemote(gen.RemoteReadConfigs, orig.RemoteReadConfigs) {
 		o.SectionsDiffer = append(o.SectionsDiffer, "remote_read")
+	}
+	// "for every accepted configuration": a later reload that changes only the external labels (which the
+	// configuration hash leaves out on purpose), then a new assignment: the global section must follow
+	yaml2 := strings.Replace(yaml, "cluster: c1", "cluster: c2", 1)
+	if orig2, err := config.Load(yaml2, false, log.NewNopLogger()); err == nil {
+		check := func(stage string) {
+			raw2, err := os.ReadFile(file)
+			if err != nil {
+				o.SectionsDiffer = append(o.SectionsDiffer, "global-"+stage+"-unreadable")
+				return
+			}
+			gen2, err := config.Load(string(raw2), false, log.NewNopLogger())
+			if err != nil || !reflect.DeepEqual(gen2.GlobalConfig, orig2.GlobalConfig) {
+				o.SectionsDiffer = append(o.SectionsDiffer, "global-"+stage)
+			}
+		}
+		if err := cm.ReloadFromRaw([]byte(yaml2)); err != nil {
+			o.Err += " second reload: " + err.Error()
+		} else {
+			check("after-external-labels-reload")
+			if err := inj.UpdateTargets(map[string][]*target.Target{"job1": {mkTarget(projAssign{Job: "job1", H: 14})}}); err != nil {
+				o.Err += " second update: " + err.Error()
+			}
+			check("after-external-labels-reload-and-update")
+		}
 	}
 	// slots in file order: alerting, jobs (already appended above - reorder), remote write, remote read
 	var slots []ijSlot
